@@ -23,7 +23,8 @@ for agent in sorted(os.listdir(RAW)):
         if m: need = ' '.join(m.group(1).split())
         # confirmation
         conf = {}
-        m = re.search(r'=== ' + re.escape(d) + r' demo=(\S+)\nclean\+demo: (.*)\nmutated\+demo: (.*)\nmutated suite: (.*)', confirm)
+        ms = list(re.finditer(r'=== ' + re.escape(d) + r' demo=(\S+)\nclean\+demo: (.*)\nmutated\+demo: (.*)\nmutated suite: (.*)', confirm))
+        m = ms[-1] if ms else None      # the last confirmation run counts (earlier ones may have guessed the name of the demonstration test wrongly)
         if m:
             conf = {'demo_test': m.group(1), 'demo_on_clean_tree': m.group(2).strip(), 'demo_with_change': m.group(3).strip(),
                     'existing_suite_with_change': m.group(4).strip()}
